@@ -1042,6 +1042,34 @@ func callBuiltin(caller *frame, callpos token.Pos, fn *ssa.Builtin, args []value
 		i.chanClose(args[0].(*gchan))
 		return nil
 
+	case "clear": // clear(map[K]V) / clear([]T)
+		switch x := args[0].(type) {
+		case *omap:
+			if x != nil {
+				if i.acc != nil {
+					i.logAccess(x, true)
+				}
+				x.clearAll()
+			}
+		case []value:
+			var et types.Type
+			if sig, ok := fn.Type().(*types.Signature); ok && sig.Params().Len() > 0 {
+				if st, ok := sig.Params().At(0).Type().Underlying().(*types.Slice); ok {
+					et = st.Elem()
+				}
+			}
+			if et == nil {
+				panic("clear: cannot determine the element type")
+			}
+			for k := range x {
+				x[k] = zero(et)
+			}
+		case nil:
+		default:
+			panic(fmt.Sprintf("clear: unsupported operand %T", x))
+		}
+		return nil
+
 	case "delete": // delete(map[K]value, K)
 		switch m := args[0].(type) {
 		case *omap:
